@@ -86,7 +86,9 @@ class Parsed:
 def parse(text):
     out = Parsed()
     current = out.header
-    for line in text.splitlines(True):
+    # physical lines end at '\n' only (what a text-mode file yields); str.splitlines would also break at form feed,
+    # vertical tab, NEL, U+2028 ... inside a comment
+    for line in (ln + '\n' for ln in text.split('\n')):
         c = classify(line)
         kind = c[0]
         if kind == 'blank':
